@@ -295,7 +295,10 @@ pub fn eval(case: &Case) -> (Vec<Violation>, bool, Option<String>) {
     let obs = match observe(&run.files, "do_thing") {
         Ok(o) => o,
         Err(e) if e.starts_with("SYNTAX") => return (vec![], true, Some(e)),
-        Err(e) => return (vec![mk(case, "wrapper-unreadable", e)], true, None),
+        // a wrapper that is missing is C03's business, a type that is not declared C02's; anything else
+        // the observer cannot interpret is the observer's limit, not a verdict
+        Err(e) if e.starts_with("no wrapper invokes") || e.contains("not declared in types.ts") || e.contains("not written") => return (vec![], true, Some(format!("NOT-EVALUABLE {}", e))),
+        Err(e) => return (vec![], true, Some(format!("ORACLE {}", e))),
     };
     let expected = case.expected();
     let mut vs = vec![];
@@ -515,6 +518,9 @@ pub fn run(tier: Tier) -> CheckResult {
             None => exhaustive = false,
             Some((v, acc, unp)) => {
                 evaluations += 1;
+                if let Some(u) = unp.as_ref().filter(|u| u.starts_with("ORACLE")) {
+                    res.machinery_errors.push(format!("observer does not cover the generated wrapper: {}", u));
+                }
                 if unp.is_some() {
                     not_parsable += 1;
                 } else if acc {
